@@ -242,6 +242,7 @@ SPEC = {
         TI + "inferred_schema_accepts_homogeneous_value_partial", TI + "inferred_object_accepts_fields_partial",
         TI + "list_item_type_is_first_items", TI + "accepted_item_has_same_type_id",
         TI + "inference_refuses_exactly_the_untypable", TI + "typable_homogeneous_value_is_accepted",
+        TI + "homogeneous_values_are_compared", TI + "accepted_values_are_compared",
         TI + "inferred_schema_can_reject_its_own_value", TI + "inferred_schema_can_reject_nested_list", TI + "kind_ranges_ordered",
     ],
     "pins": RUNLOOP_PINS + ["workflow_workflow__serializedOutput"] + INFER_PINS,
